@@ -25,6 +25,8 @@ INPUTS = {
              {"id": 2, "name": "y", "owner": None, "tags": []}],
     "nonascii": [{"имя": "a", "größe": {"élan": 1, "naïve-key": "x"}, "日本": [{"κλειδί": 2}]}],
     "pseudo": [{"a": "1", "b": "2020-01-01", "c": {"d": "12:30", "f": "true"}, "e": ["1.5"]}, {"a": "2", "b": None, "c": {"d": "13:30", "f": "false"}, "e": []}],
+    "shared": [{"id": 1, "billing": {"street": "s", "geo": {"lat": 1.5, "lon": 2.5}}, "shipping": {"carrier": "c", "eta": 3, "geo": {"lat": 3.5, "lon": 4.5}},
+                "kind": "x"}],
     "literal": [{"kind": "a", "st": "x", "sub": {"mode": "on"}}, {"kind": "b", "st": "y", "sub": {"mode": "off"}}, {"kind": "c", "st": "x", "sub": {"mode": "on"}}],
 }
 
@@ -36,6 +38,12 @@ EVENTS = {
     "G_nonascii_pyd_nouni": ("G", "nonascii", "pydantic", "flat", {"convert_unicode": False}, "explicit"),
     "G_literal_pyd": ("G", "literal", "pydantic", "flat", {}, "explicit"),
     "G_nonascii_attrs_uni": ("G", "nonascii", "attrs", "nested", {"meta": True}, "explicit"),
+    "G_literal_dc": ("G", "literal", "dataclasses", "flat", {}, "explicit"),
+    "G_literal_dc_style_nolit": ("G", "literal", "dataclasses", "flat", {"types_style": "nolit"}, "explicit"),
+    "G_pseudo_pyd": ("G", "pseudo", "pydantic", "flat", {}, "explicit"),
+    "G_pseudo_pyd_style_noactual": ("G", "pseudo", "pydantic", "flat", {"types_style": "noactual"}, "explicit"),
+    "G_shared_flat": ("G", "shared", "pydantic", "flat", {}, "explicit"),
+    "X_shared_nested": ("X", "shared", "nested", None),
     "B_r1": ("B", "r1", "tree"),
     "B_r2": ("B", "r2", "nonascii"),
     "R_r1_pyd_flat": ("R", "r1", "pydantic", "flat", {}),
@@ -46,7 +54,8 @@ EVENTS = {
     "X_tree_nested": ("X", "tree", "nested", None),
     "X_r1_flat": ("X", None, "flat", "r1"),
 }
-QUICK_EVENTS = ["G_tree_pyd", "G_pseudo_attrs_nested_dt", "G_literal_dc_conv_ml0", "G_nonascii_pyd_nouni", "G_nonascii_attrs_uni", "B_r1", "B_r2",
+QUICK_EVENTS = ["G_literal_dc", "G_literal_dc_style_nolit", "G_pseudo_pyd", "G_pseudo_pyd_style_noactual", "G_shared_flat", "X_shared_nested",
+                "G_tree_pyd", "G_pseudo_attrs_nested_dt", "G_literal_dc_conv_ml0", "G_nonascii_pyd_nouni", "G_nonascii_attrs_uni", "B_r1", "B_r2",
                 "R_r1_pyd_flat", "R_r1_attrs_nested", "R_r2_pyd_flat", "R_r2_base_nested", "X_tree_nested", "X_r1_flat"]
 
 SHARED = {}       # registry name -> Built (state of THIS process; inherited by forked children)
@@ -88,6 +97,14 @@ def _build(inp, regkind="explicit", unicode=True):
 
 
 def _render(reg, fw, layout, kw):
+    kw = dict(kw)
+    style = kw.pop("types_style", None)
+    if style == "nolit":
+        from json_to_models.dynamic_typing import StringLiteral
+        kw["types_style"] = {StringLiteral: {StringLiteral.TypeStyle.use_literals: False}}
+    elif style == "noactual":
+        from json_to_models.dynamic_typing import StringSerializable
+        kw["types_style"] = {StringSerializable: {StringSerializable.TypeStyle.use_actual_type: False}}
     return pipeline.render(reg, fw, layout, **kw)
 
 
